@@ -1,7 +1,6 @@
 from common import *
 
 PROPERTY = "C08"
-QUICK_SAMPLE = 0
 ZNX = "poulpy-cpu-ref/src/reference/znx/normalization.rs"
 
 KERNELS = [
@@ -25,7 +24,7 @@ KERNELS = [
 
 def kernel_instances(tier):
     out = []
-    bs = B_QUICK if tier == "quick" else B_THOROUGH
+    bs = [1, 2, 17, 32, 52, 62] if tier == "quick" else B_THOROUGH
     for b in bs:
         for fam, variants, fn in KERNELS:
             for v in variants:
@@ -44,7 +43,7 @@ def kernel_instances(tier):
                     )
                 )
     # power-of-two kernels: shift amounts enumerated
-    ks = [1, 2, 3, 11, 12, 17, 31, 32, 50, 61] if tier == "quick" else list(range(1, 62))
+    ks = [1, 17, 61] if tier == "quick" else list(range(1, 62))
     for k in ks:
         for neg in (False, True):
             for mode, mname in enumerate(["into", "assign", "add"]):
@@ -64,8 +63,152 @@ def kernel_instances(tier):
     return out
 
 
+KERN = {"fft64": "poulpy_cpu_ref::FFT64Ref", "ntt120": "poulpy_cpu_ref::NTT120Ref", "znxref": "poulpy_cpu_ref::reference::znx::ZnxRef"}
+NORM = "poulpy-cpu-ref/src/reference/vec_znx/normalize.rs"
+SHIFT = "poulpy-cpu-ref/src/reference/vec_znx/shift.rs"
+
+
+def offsets(bits_a, bits_r, ab, rb):
+    """boundary offsets of DESIGN §4 for one (a, res) shape"""
+    s = {0, 1, -1}
+    for b in (ab, rb):
+        s |= {b - 1, b, b + 1, -(b - 1), -b, -(b + 1)}
+    for bits in (bits_a, bits_r):
+        s |= {bits - 1, bits, bits + 1, -(bits - 1), -bits, -(bits + 1), bits + ab, -(bits + ab)}
+    return sorted(s)
+
+
+def oracle_ok(bits_a, bits_r, off):
+    return max(bits_r, bits_a - off) <= 250 and off <= 250
+
+
+def col_choice(i):
+    """column pair encoding for the harness: rc*2+ac, 9 = symbolic pair; rotates through the choices"""
+    return [2, 1, 3, 0, 2, 2, 9, 2][i % 8]
+
+
+def normalize_instances(tier):
+    """full grid; `core` marks the boundary subset that the quick tier always runs"""
+    out = []
+    pairs = [(b, b) for b in (1, 2, 3, 4, 7, 12, 17, 31, 32, 50, 52, 62)] + [(12, 17), (17, 12), (50, 52), (52, 50), (1, 62), (62, 1), (2, 5), (5, 2), (3, 4), (17, 52), (52, 17), (31, 32)]
+    core_pairs = {(17, 17), (52, 52), (12, 17), (17, 12), (3, 3)}
+    shapes = [(a, r) for a in (1, 2, 3) for r in (1, 2, 3)]
+    core_shapes = {(2, 2), (3, 2), (2, 3)}
+    i = 0
+    for rb, ab in pairs:
+        for a_s, r_s in shapes:
+            rbits, abits = r_s * rb, a_s * ab
+            core_offs = {0, -1, ab + 1, -(rbits) - 1, -(rbits + ab + 1)}
+            for off in offsets(abits, rbits, ab, rb):
+                if not oracle_ok(abits, rbits, off):
+                    continue
+                for normed in (False, True):
+                    i += 1
+                    cols = col_choice(i)
+                    core = (rb, ab) in core_pairs and (a_s, r_s) in core_shapes and off in core_offs and not normed
+                    if core and (rb, ab) != (17, 17) and (a_s, r_s) != (3, 2):
+                        core = False
+                    nm = f"c08v_norm_rb{rb}_ab{ab}_as{a_s}_rs{r_s}_off{sgn(off)}{'_n' if normed else ''}"
+                    out.append(
+                        Instance(
+                            crate="hk_hal",
+                            family="vec.normalize",
+                            name=nm,
+                            call=f"crate::c08_vec::normalize::<{KERN['fft64']}, {rb}, {ab}, {r_s}, {a_s}, {2*(r_s+1)}, {2*a_s}>({off}, {bool_rs(normed)}, {cols})",
+                            unwind=12,
+                            params={"res_base2k": rb, "a_base2k": ab, "a_size": a_s, "res_size": r_s, "off": off, "a_normalized": normed, "kern": "fft64", "cols": cols},
+                            symbolic=["a limbs (|x|<2^61, or normalised digits)", "all prior res content", "carry/scratch contents", "column pair when cols=9"],
+                            functions=[f"{NORM}::vec_znx_normalize", f"{NORM}::vec_znx_normalize_inter_base2k" if rb == ab else f"{NORM}::vec_znx_normalize_cross_base2k"],
+                            timeout=1200,
+                            core=core,
+                        )
+                    )
+    return out
+
+
+MODES = ["lsh", "lsh_add", "lsh_sub", "rsh", "rsh_add", "rsh_sub"]
+
+
+def shift_instances(tier):
+    out = []
+    bs = [1, 2, 3, 4, 7, 12, 17, 31, 32, 50, 52, 62]
+    shapes = [(a, r) for a in (1, 2, 3) for r in (1, 2, 3)]
+    i = 0
+    for b in bs:
+        for a_s, r_s in shapes:
+            ks = [k for k in offsets(a_s * b, r_s * b, b, b) if k >= 0]
+            core_ks = {1, b + 1, r_s * b + 1}
+            for k in ks:
+                for mode, mname in enumerate(MODES):
+                    off = k if mode < 3 else -k
+                    if not oracle_ok(a_s * b, r_s * b, off):
+                        continue
+                    for kern in ("fft64", "znxref", "ntt120"):
+                        if kern != "fft64" and not (b in (3, 17) and (a_s, r_s) in ((2, 2), (3, 2))):
+                            continue
+                        i += 1
+                        cols = col_choice(i)
+                        core = kern == "fft64" and b == 17 and (a_s, r_s) == (3, 2) and k in core_ks
+                        core = core or (kern == "znxref" and b == 17 and (a_s, r_s) == (3, 2) and k == b + 1 and mode in (1, 4))
+                        out.append(
+                            Instance(
+                                crate="hk_hal",
+                                family=f"vec.shift.{mname}",
+                                name=f"c08v_{mname}_{kern}_b{b}_as{a_s}_rs{r_s}_k{k}",
+                                call=f"crate::c08_vec::shift::<{KERN[kern]}, {b}, {r_s}, {a_s}, {2*(r_s+1)}, {2*a_s}, {mode}>({k}, {cols})",
+                                unwind=12,
+                                params={"base2k": b, "a_size": a_s, "res_size": r_s, "k": k, "mode": mname, "kern": kern, "cols": cols},
+                                symbolic=["a limbs |x|<2^61", "prior res content (|x|<2^61 for accumulate forms, arbitrary otherwise)", "carry/scratch contents", "column pair when cols=9"],
+                                functions=[f"{SHIFT}::vec_znx_{'lsh' if mode < 3 else 'rsh'}{'_sub' if mode % 3 == 2 else ''}"],
+                                timeout=1200,
+                                core=core,
+                            )
+                        )
+            # in-place forms
+            if a_s == r_s:
+                for k in ks:
+                    for mode, mname in enumerate(["lsh_assign", "rsh_assign"]):
+                        off = k if mode == 0 else -k
+                        if not oracle_ok(r_s * b, r_s * b, off):
+                            continue
+                        i += 1
+                        cols = col_choice(i)
+                        out.append(
+                            Instance(
+                                crate="hk_hal",
+                                family=f"vec.shift.{mname}",
+                                name=f"c08v_{mname}_b{b}_rs{r_s}_k{k}",
+                                call=f"crate::c08_vec::shift_assign::<{KERN['fft64']}, {b}, {r_s}, {2*(r_s+1)}, {mode}>({k}, {cols})",
+                                unwind=12,
+                                params={"base2k": b, "res_size": r_s, "k": k, "mode": mname, "kern": "fft64", "cols": cols},
+                                symbolic=["res limbs |x|<2^61", "tmp/scratch contents"],
+                                functions=[f"{SHIFT}::vec_znx_{mname}"],
+                                timeout=1200,
+                                core=(b == 17 and r_s == 3 and k in (0, 1, 2 * b + 1, 3 * b + 1)),
+                            )
+                        )
+                out.append(
+                    Instance(
+                        crate="hk_hal",
+                        family="vec.normalize_assign",
+                        name=f"c08v_normalize_assign_b{b}_rs{r_s}",
+                        call=f"crate::c08_vec::shift_assign::<{KERN['fft64']}, {b}, {r_s}, {2*(r_s+1)}, 2>(0, 2)",
+                        unwind=12,
+                        params={"base2k": b, "res_size": r_s, "kern": "fft64"},
+                        symbolic=["res limbs |x|<2^61", "carry contents"],
+                        functions=[f"{NORM}::vec_znx_normalize_assign"],
+                        timeout=1200,
+                        core=(b == 17 and r_s == 3),
+                    )
+                )
+    return out
+
+
+QUICK_SAMPLE = 24
+
+
 def instances(tier, seed):
-    return kernel_instances(tier)
+    return kernel_instances(tier) + normalize_instances(tier) + shift_instances(tier)
 
 
 META = {
